@@ -77,8 +77,17 @@ impl<T: Float + core::fmt::Display> core::fmt::Display for KahanSum<T> {
 
 impl<T: Float> core::ops::AddAssign<Self> for KahanSum<T> {
     fn add_assign(&mut self, rhs: Self) {
-        kahan_add(&mut self.sum, rhs.sum, &mut self.compensation);
-        kahan_add(&mut self.sum, rhs.compensation, &mut self.compensation);
+        // The kernel recovers the rounding error of an addition only if the running sum is the
+        // larger operand, and a register stands for `sum - compensation`: add the smaller register
+        // into the larger one, and take its compensation with that sign.
+        let (mut acc, other) = if rhs.sum.abs() > self.sum.abs() {
+            (rhs, *self)
+        } else {
+            (*self, rhs)
+        };
+        kahan_add(&mut acc.sum, other.sum, &mut acc.compensation);
+        kahan_add(&mut acc.sum, -other.compensation, &mut acc.compensation);
+        *self = acc;
     }
 }
 
